@@ -78,6 +78,7 @@ ReleaseKernel(s) ==
 ReleaseModel(m) ==
     /\ Tick /\ loaded[m]
     /\ \A s \in Slots : kern[s].m # m
+    /\ \A q \in QSets : dm[<<m, q>>] = <<"garbage">>       \* nor a DirectModel holding one of its kernels
     /\ loaded' = [loaded EXCEPT ![m] = FALSE]
     /\ ret' = NoRet
     /\ UNCHANGED <<kern, wrap, dm, dict>>
